@@ -166,3 +166,28 @@ Example C05_container_example :
   snd (sm_run [] [SStore 3 30; SStore 1 10; SStore 3 31; SStoreIf 1 3 5; SStoreIf 2 1 20; SDelete 1; SCount; SRange (Some 1%nat); SRange None; SLoad 1; SToMap]) =
   [OUnit; OUnit; OUnit; OLoad (Some 10); OLoad None; OUnit; OCount 2; ORange 1; ORange 2; OLoad None; OMap [(2, 20); (3, 31)]].
 Proof. vm_compute. reflexivity. Qed.
+
+(* checkpoint.Save's two walks over the containers give the dump and the dirty list of the model: for every container
+   pair representing the two functions of a state whose keys lie in the walked id lists, the document looked up for any
+   vBucket in the dump built by offsets.Range is the one of dump_of, and the vBuckets dirtyOffsets.Range marks for
+   writing are those of dirty_of *)
+From Verif Require Import Proofs.ContainerStream.
+
+Theorem C05_container_dump : forall (offs : smap_of offset) (dirty : smap_of bool) f g vbs,
+  NoDup (map fst dirty) ->
+  (forall k, sm_load offs k = f k) -> (forall k, f k <> None -> mem k vbs = true) ->
+  (forall k, sm_load dirty k = g k) -> (forall k, g k <> None -> In k all_vbs) ->
+  (forall vb, lookup_doc (c_dump offs) vb = lookup_doc (dump_of f vbs) vb) /\
+  (forall vb, In vb (c_dirty dirty) <-> In vb (dirty_of g all_vbs)).
+Proof.
+  exact (fun offs dirty f g vbs Hi Ho Hk Hd Hg =>
+    conj (c_dump_is_dump offs f vbs Ho Hk) (c_dirty_is_dirty dirty g all_vbs Hi Hd Hg)).
+Qed.
+Print Assumptions C05_container_dump.
+
+Example C05_container_dump_example :
+  let o n := MkO 77 n 1 9 18446744073709551615 in
+  c_dump [(3, o 7); (1, o 5)] = [(3, MkD 77 7 1 9); (1, MkD 77 5 1 9)] /\
+  dump_of (fun k => sm_load [(3, o 7); (1, o 5)] k) [1; 2; 3] = [(1, MkD 77 5 1 9); (3, MkD 77 7 1 9)] /\
+  c_dirty [(3, true); (1, false); (2, true)] = [3; 2].
+Proof. vm_compute. repeat split; reflexivity. Qed.
